@@ -114,6 +114,7 @@ def run(pid, tier, seed, replay=None):
     kf = core.known_findings()
     consts = {'KnownDev': core.tla_set(core.known_dev_ids(kf))}
     violations, known_hit = [], set()
+    sweep = ['--sweep', '1'] if pid in ('C01', 'C02') else []   # accessor sweep of all single-layer decoders
     stats = {'generated': 0, 'distinct': 0, 'events': 0, 'runs': 0}
     samples = []
     notes = {}
@@ -152,7 +153,7 @@ def run(pid, tier, seed, replay=None):
             raise core.ToolError('replay file has no input bytes')
         open(inp, 'w').write(json.dumps({'id': x['id'], 'bytes': x['bytes'], 'plan': x.get('plan', [['eth', 0, 0]])}) + '\n')
         trace = os.path.join(wd, 'replay_trace.ndjson')
-        crashes = core.run_drive(binary, ['decode-in', '--in', inp], trace, wd)
+        crashes = core.run_drive(binary, ['decode-in', '--in', inp] + sweep, trace, wd)
         violations.extend(crash_violations(crashes, pid, {x['id']: x}))
         if not crashes:
             validate(trace, 'replay')
@@ -174,7 +175,7 @@ def run(pid, tier, seed, replay=None):
         x = json.loads(line)
         inputs_by_id[x['id']] = x
     trace = os.path.join(wd, 'mc_trace.ndjson')
-    crashes = core.run_drive(binary, ['decode-in', '--in', mc['inputs']], trace, wd)
+    crashes = core.run_drive(binary, ['decode-in', '--in', mc['inputs']] + sweep, trace, wd)
     violations.extend(crash_violations(crashes, pid, inputs_by_id))
     validate(trace, 'spec_generated_inputs')
     os.remove(trace)
@@ -182,7 +183,7 @@ def run(pid, tier, seed, replay=None):
     n = 1500 if tier == 'quick' else 30000
     trace = os.path.join(wd, 'gen_trace.ndjson')
     pseed = seed * 100 + int(pid[1:])
-    crashes = core.run_drive(binary, ['decode-gen', '--seed', str(pseed), '--n', str(n)], trace, wd)
+    crashes = core.run_drive(binary, ['decode-gen', '--seed', str(pseed), '--n', str(n)] + sweep, trace, wd)
     violations.extend(crash_violations(crashes, pid, {}))
     validate(trace, 'recorded_damaged_packets')
     os.remove(trace)
